@@ -45,14 +45,14 @@ Lemma buf_process_mod c now i w :
   w_mod (fst (buf_process c now i w)) i = match shut (w_mod w i) with Some _ => consumed now (w_mod w i) | None => w_mod w i end.
 Proof.
   unfold buf_process, shutdown_part. cbn [w_mod set_buf set_fes].
-  destruct (shut (w_mod w i)) as [[t|]|]; cbn [fst]; wsimpl; rewrite ?N.eqb_refl; reflexivity.
+  destruct (shut (w_mod w i)) as [[t|]|]; cbn [fst]; rewrite ?ifse_mod; wsimpl; rewrite ?N.eqb_refl; reflexivity.
 Qed.
 
 Lemma buf_process_fes c now i w :
   w_fes (fst (buf_process c now i w)) = fes_flush (restart_of i (w_mod w i)) (fes_flush (w_buf w) (w_fes w)).
 Proof.
   unfold buf_process, shutdown_part, restart_of. cbn [w_mod set_buf set_fes].
-  destruct (shut (w_mod w i)) as [[t|]|]; reflexivity.
+  destruct (shut (w_mod w i)) as [[t|]|]; cbn [fst]; rewrite ?ifse_fes; reflexivity.
 Qed.
 
 Lemma activate_shut now i w : shut (w_mod (activate now i w) i) = shut (w_mod w i).
